@@ -126,7 +126,7 @@ Qed.
 (** ** the whole executable spec of an un-raced compaction (complete or killed after any number of flushes) *)
 
 (** the repaired strategy never schedules reference keys shared with a kept version *)
-Lemma pass_noshared eqb : forall vs prev, Forall (fun i => i_shared i = false) (entity_pass cf_fixed eqb prev vs).
+Lemma pass_noshared eqb same : forall vs prev, Forall (fun i => i_shared i = false) (entity_pass cf_fixed eqb same prev vs).
 Proof.
   induction vs as [|v vs IH]; intros prev; cbn [entity_pass]; [constructor|].
   destruct (eqb (en_c prev) (en_c v)); [constructor; [reflexivity | apply IH]|].
@@ -137,7 +137,7 @@ Lemma all_noshared eqb d order : Forall (fun i => i_shared i = false) (all_instr
 Proof.
   apply Forall_forall. intros i Hi. unfold all_instrs in Hi. apply in_flat_map in Hi. destruct Hi as (id & _ & Hi).
   unfold entity_instrs in Hi. destruct (versions_of d id) as [|v vs]; [destruct Hi|].
-  pose proof (pass_noshared eqb vs v) as H. rewrite Forall_forall in H. now apply H.
+  pose proof (pass_noshared eqb (shares_time (v :: vs)) vs v) as H. rewrite Forall_forall in H. now apply H.
 Qed.
 
 Lemma plan_prefix_noshared fl thr d order k :
